@@ -123,3 +123,100 @@ contract(
     properties=("C16",),
     note="a finite limit that sympy merely cannot PROVE finite (e.g. 1/tau) must still be used as the replacement",
 )
+
+
+# ---- Assignment.singularities (C16: every point sympy reports for a stateful dependency becomes a Singularity) ---------------
+from pyvc.values import SetIter, BoundMethod  # noqa: E402
+from pyvc.core import TSet, Record  # noqa: E402
+from .models import TAtom  # noqa: E402
+
+TSing = core.TU("Sing")
+MK = core.uf("Sing.mk", S, S, S, TSing.sort())
+
+
+def _mk_axioms(app):
+    a, b, c = app.children()
+    f = lambda n, ty: registry.field_term("Sing", n, app).t  # noqa: E731
+    return [f("symbol", None) == a, f("value", None) == b, f("replacement", None) == c]
+
+
+core.TERM_AXIOMS["Sing.mk"] = _mk_axioms
+
+
+@external(A + "Singularity")
+def _Singularity(ctx, st, symbol=None, value=None, replacement=None):
+    """ASSUMED: a frozen attrs value class - the object is determined by its three fields"""
+    ctx.assumed_used.add("gotranx.atoms.Singularity is a value: equal fields, equal (and equally hashed) objects")
+    return SV(TSing, MK(lift(symbol, _TSym).t, lift(value, _TSym).t, lift(replacement, _TSym).t))
+
+
+registry.SPECS["Singularity"] = lambda ctx, st, a, b, c: SV(TSing, MK(lift(a, _TSym).t, lift(b, _TSym).t, lift(c, _TSym).t))
+SING_ELEMS = core.uf("sp.singularities.elems", S, S, TSet(_TSym).sort())
+SING_NONEMPTY = core.uf("sp.singularities.nonempty", S, S, z3.BoolSort())
+SING_FINITE = core.uf("sp.singularities.is_FiniteSet", S, S, z3.BoolSort())
+LIMIT = core.uf("sp.limit", S, S, S, S)
+
+
+class SingSet:
+    """what sympy.singularities(expr, symbol) returns: some set object (ASSUMED interface: truthiness, FiniteSet-ness, iteration)"""
+
+    def __init__(self, e, s):
+        self.e, self.s = e, s
+
+    def model_iter(self):
+        return SetIter(SV(TSet(_TSym), SING_ELEMS(self.e.t, self.s.t)), "sympy.singularities")
+
+    def model_truth(self):
+        return SV(TBool, SING_NONEMPTY(self.e.t, self.s.t))
+
+
+@external("sympy.singularities")
+def _singularities(ctx, st, e, s):
+    ctx.assumed_used.add("sympy.singularities / sympy.limit are functions of their arguments")
+    return SingSet(lift(e, _TSym), lift(s, _TSym))
+
+
+registry.EXTERNALS["isinstance:sympy.sets.sets.FiniteSet"] = lambda ctx, st, obj: (
+    SV(TBool, SING_FINITE(obj.e.t, obj.s.t)) if isinstance(obj, SingSet) else False)
+registry.EXTERNALS["sympy.limit"] = lambda ctx, st, e, s, v: SV(_TSym, LIMIT(lift(e, _TSym).t, lift(s, _TSym).t, lift(v, _TSym).t))
+registry.SPECS["limit"] = registry.EXTERNALS["sympy.limit"]
+registry.SPECS["sing_elems"] = lambda ctx, st, e, s: SV(TSet(_TSym), SING_ELEMS(lift(e, _TSym).t, lift(s, _TSym).t))
+registry.SPECS["sing_reported"] = lambda ctx, st, e, s: SV(TBool, z3.And(SING_NONEMPTY(lift(e, _TSym).t, lift(s, _TSym).t),
+                                                                           SING_FINITE(lift(e, _TSym).t, lift(s, _TSym).t)))
+
+contract(A + "Atom.is_stateful", params={"self": "Atom", "lookup": "Dict[Name,Atom]"}, ret="Bool", assumed=True,
+         note="interface only (recursive through the dependencies): a function of the atom and the table")
+registry.method("Atom", "is_stateful", A + "Atom.is_stateful")
+
+_SYM = "lookup[d].symbol"
+contract(
+    A + "Assignment.singularities", params={"self": "Atom", "lookup": "Dict[Name,Atom]"}, ret="Set[Sing]", ghost={"d": "Name", "v": "Sym"},
+    ensures={
+        "every_reported_point_of_every_stateful_dependency_becomes_a_singularity_with_its_limit":
+            f"implies((self.value is not None) and self.expr != 0 and d in self.value.dependencies and d in lookup and "
+            f"lookup[d].is_stateful(lookup) and sing_reported(self.expr, {_SYM}) and v in sing_elems(self.expr, {_SYM}), "
+            f"Singularity({_SYM}, v, limit(self.expr, {_SYM}, v)) in result)",
+        "nothing_without_a_value": "implies(self.value is None, len_is_zero(result))",
+    },
+    loops={
+        0: {"invariant": {
+            "covers": f"implies(d in self.value.dependencies and POS(d) < k and d in lookup and lookup[d].is_stateful(lookup) and "
+                      f"sing_reported(self.expr, {_SYM}) and v in sing_elems(self.expr, {_SYM}), "
+                      f"Singularity({_SYM}, v, limit(self.expr, {_SYM}, v)) in singularity_list)"},
+            "types": {"singularity_list": "Set[Sing]"}},
+        1: {"invariant": {
+            "mono": "implies(Singularity(lookup[d].symbol, v, limit(self.expr, lookup[d].symbol, v)) in singularity_list__pre, "
+                    "Singularity(lookup[d].symbol, v, limit(self.expr, lookup[d].symbol, v)) in singularity_list)",
+            "covers_cur": "implies(v in sing_elems(self.expr, var.symbol) and POS(v) < k, "
+                          "Singularity(var.symbol, v, limit(self.expr, var.symbol, v)) in singularity_list)"}},
+    },
+    properties=("C16",),
+    note="which points exist is sympy's answer (assumed); the contract is that none of them is dropped, whatever kind of value it is",
+)
+
+
+@registry.spec("len_is_zero")
+def _len_is_zero(ctx, st, s):
+    if isinstance(s, (set, frozenset, list, tuple)):
+        return len(s) == 0
+    return SV(TBool, s.t == z3.K(s.ty.args[0].sort(), z3.BoolVal(False)))
